@@ -1905,6 +1905,220 @@ def _cold_start_child(cfg):
     return {"bad": bad[:6], "reps": reps}
 
 
+# ---- forced windows: a reader is put INSIDE every publishing step of every lazy filler
+_INIT_NAMES = {"__init__", "__post_init__", "__new__", "__setstate__", "__init_subclass__", "__set_name__"}
+
+
+def _publishing_lines():
+    """{code object: {line numbers}} for every function of btclib (constructors excluded) with a statement that PUBLISHES
+    state other callers read: a store into a container held by the instance (`self.x[k] = v`, `self.x.append(..)`), into
+    `self.__dict__` / `vars(self)` (or a local alias), into a module-level container, or `object.__setattr__(arg, ..)`.
+    Found by AST over every module of the package, resolved to the live code objects."""
+    import ast  # noqa: PLC0415
+    import importlib  # noqa: PLC0415
+    import pkgutil  # noqa: PLC0415
+    import btclib  # noqa: PLC0415
+    mut = _plugin()._MUTATORS  # noqa: SLF001
+    out = {}
+    for mi in pkgutil.walk_packages(btclib.__path__, "btclib."):
+        m = importlib.import_module(mi.name)
+        f = getattr(m, "__file__", None)
+        if not f or not f.endswith(".py"):
+            continue
+        tree = ast.parse(open(f).read())
+        modnames = {t.id for st in tree.body if isinstance(st, (ast.Assign, ast.AnnAssign))
+                    for t in (st.targets if isinstance(st, ast.Assign) else [st.target]) if isinstance(t, ast.Name)}
+
+        def visit(node, path, m=m, modnames=modnames):
+            for ch in ast.iter_child_nodes(node):
+                if isinstance(ch, ast.ClassDef):
+                    visit(ch, path + [ch.name])
+                elif isinstance(ch, (ast.FunctionDef, ast.AsyncFunctionDef)):
+                    if ch.name not in _INIT_NAMES:
+                        lines = _fn_publishing_lines(ch, modnames, mut)
+                        if lines:
+                            obj = m
+                            for part in path + [ch.name]:
+                                obj = vars(obj).get(part) if obj is not None and hasattr(obj, "__dict__") else None
+                            obj = getattr(obj, "fget", obj)
+                            obj = getattr(obj, "__func__", obj)
+                            obj = getattr(obj, "__wrapped__", obj)
+                            code = getattr(obj, "__code__", None)
+                            if code is not None:
+                                out[code] = lines
+                    visit(ch, path + [ch.name])
+        visit(tree, [])
+    return out
+
+
+def _fn_publishing_lines(fn, modnames, mut):
+    import ast  # noqa: PLC0415
+    params = [a.arg for a in fn.args.posonlyargs + fn.args.args + fn.args.kwonlyargs]
+    me = params[0] if params else None
+    stored = {x.id for x in ast.walk(fn) if isinstance(x, ast.Name) and isinstance(x.ctx, ast.Store)}
+    aliases = set()
+    for n in ast.walk(fn):
+        if isinstance(n, ast.Assign) and ast.unparse(n.value) in (f"{me}.__dict__", f"vars({me})"):
+            aliases |= {t.id for t in n.targets if isinstance(t, ast.Name)}
+
+    def shared(n):      # an expression naming a container other callers can see
+        if isinstance(n, ast.Attribute) and isinstance(n.value, ast.Name) and n.value.id == me and me in ("self", "cls"):
+            return True
+        if isinstance(n, ast.Name) and (n.id in aliases or (n.id in modnames and n.id not in stored and n.id not in params)):
+            return True
+        return ast.unparse(n) == f"vars({me})"
+
+    lines = set()
+    for n in ast.walk(fn):
+        if isinstance(n, ast.Subscript) and isinstance(n.ctx, ast.Store) and shared(n.value):
+            lines.add(n.lineno)
+        if isinstance(n, ast.Call) and isinstance(n.func, ast.Attribute):
+            if n.func.attr in mut and shared(n.func.value):
+                lines.add(n.lineno)
+            if n.func.attr == "__setattr__" and ast.unparse(n.func.value) == "object" and n.args \
+                    and isinstance(n.args[0], ast.Name) and n.args[0].id in params:
+                lines.add(n.lineno)
+    return lines
+
+
+def _forced_calls(seed, thorough):
+    """first uses through the public API, grouped by the lazy state they fill: per word-list object and language (bip39,
+    electrum, slip39's list), and the other fillers with a publishing step."""
+    from btclib.mnemonic import electrum as el  # noqa: PLC0415
+    from btclib.mnemonic import mnemonic as mn  # noqa: PLC0415
+    rng = random.Random(seed)
+    groups = []
+    for which, wl in (("bip39", mn.WORDLISTS), ("electrum", el.ELECTRUM_WORDLISTS)):
+        langs = list(wl.languages)
+        if not thorough:
+            langs = rng.sample(langs, 3)
+        for lang in langs:
+            ent = _h("forced", seed, which, lang)[:16].hex()
+            calls = [["wl_len", which, lang], ["wl_roundtrip", which, lang], ["wl_words", which, lang]]
+            if which == "bip39" and wl.language_length(lang) == 2048:
+                calls += [["mnemonic", lang, ent], ["entropy", lang, bip39.mnemonic_from_entropy(bytes.fromhex(ent), lang)]]
+            if which == "electrum":
+                calls += [["el_roundtrip", lang, int(ent, 16) % 2**120]]
+            groups.append(calls)
+    groups.append([["ellswift", "secp192k1", _ELL[:48].hex()], ["ellswift", "secp256k1", _ELL.hex()]])
+    groups.append([["session_values", 1], ["psig_verify", 1, 0, False]])
+    groups.append([["electrum_old", "00112233445566778899aabbccddeeff"]])
+    return groups
+
+
+def _eval_forced(d):
+    from btclib.mnemonic import electrum as el  # noqa: PLC0415
+    from btclib.mnemonic import mnemonic as mn  # noqa: PLC0415
+    if d[0].startswith("wl_"):
+        wl = mn.WORDLISTS if d[1] == "bip39" else el.ELECTRUM_WORDLISTS
+        if d[0] == "wl_len":
+            return wl.language_length(d[2])
+        if d[0] == "wl_words":
+            ws = wl.wordlist(d[2])
+            return [len(ws), ws[0], ws[-1], wl.index(ws[7], d[2])]
+        m_ = mn.mnemonic_from_indexes([5, 1, 7, 0], d[2], wl)
+        return [m_, list(mn.indexes_from_mnemonic(m_, d[2], wl))]
+    if d[0] == "el_roundtrip":
+        m_ = el._mnemonic_from_int_entropy(d[2], d[1])  # noqa: SLF001
+        return [m_, el._bin_str_entropy_from_mnemonic(m_, d[1])]  # noqa: SLF001
+    return _eval_cold(d)
+
+
+def _forced_child(cfg):
+    """for each group of first uses and each kind of reader: purge; one thread makes the first use with a LINE hook on every
+    publishing statement of every filler (sys.monitoring); at each such statement -- state half published -- the hook
+    releases ONE fresh reader thread and waits a moment for it: a correct filler makes it wait for the lock (or compute its
+    own), a lock-free shortcut lets it read what is not all there yet.  Every answer must be the sequential one."""
+    import time  # noqa: PLC0415
+    seed, thorough = cfg["seed"], cfg.get("thorough", False)
+    lines = _publishing_lines()
+    mon = sys.monitoring
+    tool = 3
+    bad, windows = [], 0
+    sys.setswitchinterval(1e-6)
+    mon.use_tool_id(tool, "c20-forced-window")
+    state = {"readers": []}
+
+    def on_line(code, line):
+        if line not in lines.get(code, ()):
+            return mon.DISABLE
+        if state["readers"]:
+            ev, th = state["readers"].pop()
+            state["windows"] = state.get("windows", 0) + 1
+            ev.set()
+            th.join(0.004)          # it either finishes (on whatever it could read) or is waiting for the lock
+        else:
+            time.sleep(0)
+        return None
+
+    mon.register_callback(tool, mon.events.LINE, on_line)
+    for code in lines:
+        mon.set_local_events(tool, code, mon.events.LINE)
+    try:
+        for calls in _forced_calls(seed, thorough):
+            if INSTALLED:
+                set_serving(serving=False)
+            ref = {json.dumps(d): json.loads(json.dumps(_eval_forced(d))) for d in calls}
+            for reader in calls:
+                loader = calls[(calls.index(reader) + 1) % len(calls)]
+                _purge_lazy()
+
+                def run(d, who, gate=None):
+                    if gate is not None:
+                        gate.wait()
+                    try:
+                        got = json.loads(json.dumps(_eval_forced(d)))
+                    except Exception as e:  # noqa: BLE001
+                        bad.append({"loader": loader, "reader": reader, "who": who,
+                                    "what": f"{d[:3]} raised {type(e).__name__}: {str(e)[:90]}"})
+                        return
+                    if got != ref[json.dumps(d)]:
+                        bad.append({"loader": loader, "reader": reader, "who": who,
+                                    "what": f"{d[:3]} answered {str(got)[:60]}, alone it answers {str(ref[json.dumps(d)])[:60]}"})
+
+                pool = []
+                for k in range(cfg.get("threads", 8) - 1):
+                    ev = threading.Event()
+                    th = threading.Thread(target=run, args=(reader, f"reader {k} released inside a publishing step", ev))
+                    th.start()
+                    pool.append((ev, th))
+                state["readers"] = list(pool)
+                lt = threading.Thread(target=run, args=(loader, "the thread making the first use"))
+                lt.start()
+                lt.join()
+                state["readers"] = []
+                for ev, th in pool:
+                    ev.set()
+                for ev, th in pool:
+                    th.join()
+                if len(bad) > 3:
+                    break
+            if len(bad) > 3:
+                break
+    finally:
+        for code in lines:
+            mon.set_local_events(tool, code, 0)
+        mon.register_callback(tool, mon.events.LINE, None)
+        mon.free_tool_id(tool)
+    return {"bad": bad[:4], "windows": state.get("windows", 0), "fillers": len(lines)}
+
+
+def _o_forced_window(w):
+    """every publishing step of every lazy filler, with a reader released inside it (deterministic, not by luck)."""
+    p = subprocess.run([sys.executable, "-m", "harness.c20", "--forced"], input=json.dumps(w).encode(),
+                       stdout=subprocess.PIPE, stderr=subprocess.PIPE, cwd=common.ROOT, timeout=1800)
+    if p.returncode != 0:
+        raise common.HarnessError("forced-window subprocess failed: " + p.stderr.decode()[-600:])
+    r = json.loads(p.stdout.decode().strip().split("\n")[-1])
+    if r["bad"]:
+        b = r["bad"][0]
+        return False, (f"first use {b['loader'][:3]} in one thread, {b['reader'][:3]} from a thread released inside a publishing step "
+                       f"of the filler: {b['who']}: {b['what']}")
+    if r["windows"] == 0:
+        return False, "no publishing step of any filler was reached: the hook is not attached to the code that runs"
+    return True, f"{r['windows']} readers released inside publishing steps of {r['fillers']} functions with one; all answers sequential"
+
+
 def _o_cold_start(w):
     """a SEARCH over schedules (not a proof): a fresh interpreter, first uses made concurrently."""
     p = subprocess.run([sys.executable, "-m", "harness.c20", "--coldstart"], input=json.dumps(w).encode(),
@@ -1932,6 +2146,7 @@ ORACLES = {
     "curve.identity": _o_curve_identity,
     "threads.search": _o_threads,
     "threads.cold_start": _o_cold_start,
+    "threads.forced_window": _o_forced_window,
 }
 
 
@@ -2302,6 +2517,7 @@ def _run(ctx, rng, thorough):
         ctx.check("threads.search", {"seed": ctx.seed * 1000 + k, "threads": 8, "flips": True})
     for k in range(ctx.n(2, 6)):
         ctx.check("threads.cold_start", {"seed": ctx.seed * 100 + k, "reps": 25 if not thorough else 80, "threads": 8})
+    ctx.check("threads.forced_window", {"seed": ctx.seed, "thorough": thorough, "threads": 8}, key="lazy-filler-read-half-published")
     _lap(ctx, "threads")
     ctx.note("threads.search and threads.cold_start are SEARCHES over real CPython schedules (8 threads, switch interval "
              "1e-6 s; warm caches with concurrent clears and backend flips, and first uses from purged lazy state in fresh "
@@ -2312,5 +2528,7 @@ if __name__ == "__main__":
     if "--cold" in sys.argv:
         ds = json.loads(sys.stdin.read())
         print(json.dumps([json.loads(json.dumps(_eval(d))) for d in ds]))
+    elif "--forced" in sys.argv:
+        print(json.dumps(_forced_child(json.loads(sys.stdin.read()))))
     elif "--coldstart" in sys.argv:
         print(json.dumps(_cold_start_child(json.loads(sys.stdin.read()))))
